@@ -225,6 +225,8 @@ def m_ceil(ex, fr, st, args, ins):
 
 def m_floor(ex, fr, st, args, ins):
     x = force(args[0])
+    if isinstance(x, FFP):
+        return FFP(z3.fpRoundToIntegral(z3.RTN(), x.t))
     if isinstance(x, float):
         return float(math.floor(x)) if not (math.isinf(x) or math.isnan(x)) else x
     if isinstance(x, FInt):
